@@ -364,26 +364,57 @@ func VerifC34ReadyTargetStep() {
 // ---------------------------------------------------------------- interleavings INSIDE the operations
 //
 // The entries above let an operation of a primitive run to completion before the next one
-// starts. The three entries below start 2-3 goroutines at once, each performing its operation(s)
-// on one shared primitive from an arbitrary valid state, and the executor may take the processor
-// away from a running goroutine at every synchronisation operation of the package (spec:
-// max_preempt 1 quick / 2 thorough; which goroutine continues when one blocks or ends is always a
-// choice). Counterexamples are replayed natively with the recorded schedule forced.
+// starts. The three entries below start 2-3 goroutines ("parties") at once, each performing its
+// operation(s) on one shared primitive from an arbitrary valid state, and the executor may take
+// the processor away from a running goroutine at every synchronisation operation of the package
+// (spec: max_preempt 1 quick / 2 thorough; which goroutine continues when one blocks or ends is
+// always a choice; a goroutine woken from Cond.Wait re-acquires the lock in a step of its own).
+// Counterexamples are replayed natively with the recorded schedule forced.
 //
-// Oracles (from the statement, none looks at the implementation's fields except to set up the
-// start state and to read the final one):
-//   - "in": goroutines between the return of their acquire and the call of their release. This
+// Oracles (from the statement; the implementation's fields are only read for the final state):
+//   - "in": parties between the return of their acquire and the call of their release. This
 //     under-approximates "holds", so two of them coexisting is a real coexistence of holders.
-//   - "may": goroutines between the call of their acquire and the return of their release. This
+//   - "may": parties between the call of their acquire and the return of their release. This
 //     over-approximates "holds": a non-blocking acquire may be refused only if a conflicting
 //     party may have held at some moment of the call.
-//   - progress: every holder releases, so when nothing can run any more every goroutine has
-//     finished (a goroutine left parked has lost its wake-up) and the primitive is free again.
+//   - progress: every holder releases, so when nothing can run any more every party has
+//     finished (a party left parked has lost its wake-up) and the primitive is free again.
+//
+// The parties only record what they observe; the driver turns the observations into obligations
+// when everything is at rest (an assertion failing inside a party would end the path with the
+// other parties suspended in the middle of an operation, which a native run cannot reproduce).
 
-// verifC34Busy is a scheduling point inside a critical section (a holder doing some work).
+type verifC34Obs struct{ bad []string }
+
+func (o *verifC34Obs) check(id string, ok bool) {
+	if !ok {
+		o.bad = append(o.bad, id)
+	}
+}
+
+func (o *verifC34Obs) assertAll(ids ...string) {
+	for _, id := range ids {
+		ok := true
+		for _, b := range o.bad {
+			if b == id {
+				ok = false
+			}
+		}
+		verifAssert(id, ok)
+	}
+}
+
+// verifC34Work is what a holder does inside its critical section. Short: one scheduling point
+// (the holder goes on unless the executor spends a preemption on it). Long: it sleeps for a unit
+// of model time, i.e. it stays inside until every other party has finished or is parked - so a
+// party that was preempted in the middle of its acquire resumes while the holder is inside.
 var verifC34Mu sync.Mutex
 
-func verifC34Work() {
+func verifC34Work(long bool) {
+	if long {
+		time.Sleep(verifC34Unit)
+		return
+	}
 	verifC34Mu.Lock()
 	verifC34Mu.Unlock()
 }
@@ -396,6 +427,7 @@ const verifC34Unit = time.Millisecond
 func VerifC34GatePreempt() {
 	verifPanicsAreViolations()
 	c := NewCheckAndSet()
+	o := &verifC34Obs{}
 	nW := 2
 	if verifTier() == 1 {
 		nW = 2 + verifChoice("workers", 2)
@@ -404,6 +436,7 @@ func VerifC34GatePreempt() {
 	in, may, claims := 0, 0, 0
 	held := verifChoice("held", 2) == 1
 	holderEnds := false
+	long := verifChoice("hold", 2) == 1
 	if held {
 		verifAssume(c.Begin("H") == nil)
 		in, may, claims = 1, 1, 1
@@ -428,23 +461,24 @@ func VerifC34GatePreempt() {
 			if err != nil {
 				may--
 				verifReach("gate-refused")
-				verifAssert("C34-gate-refused-only-when-held", may0 > 0 || claims != claims0+1)
+				o.check("C34-gate-refused-only-when-held", may0 > 0 || claims != claims0+1)
 				if retry {
 					verifReach("gate-retry-timeout")
-					verifAssert("C34-gate-retry-error", err == ErrCASConflictTimeout)
-					verifAssert("C34-gate-retry-not-early", time.Since(t0) >= 2*verifC34Unit)
+					o.check("C34-gate-retry-error", err == ErrCASConflictTimeout)
+					o.check("C34-gate-retry-not-early", time.Since(t0) >= 2*verifC34Unit)
 				} else {
-					verifAssert("C34-gate-error", errors.Is(err, ErrCASConflict))
+					o.check("C34-gate-error", errors.Is(err, ErrCASConflict))
 				}
 			} else {
-				verifAssert("C34-gate-one-holder", in == 0)
+				o.check("C34-gate-one-holder", in == 0)
 				in++
 				entered++
 				if held && entered == 1 {
 					verifReach("gate-handover")
 				}
-				verifAssert("C34-gate-owner-is-the-holder", c.Owner() == names[i])
-				verifAssert("C34-gate-one-holder", in == 1)
+				verifC34Work(long)
+				o.check("C34-gate-owner-is-the-holder", c.Owner() == names[i])
+				o.check("C34-gate-one-holder", in == 1)
 				in--
 				c.End()
 				may--
@@ -454,7 +488,7 @@ func VerifC34GatePreempt() {
 	}
 	if holderEnds {
 		go func() {
-			verifC34Work()
+			verifC34Work(long)
 			in--
 			c.End()
 			may--
@@ -464,8 +498,10 @@ func VerifC34GatePreempt() {
 		done[nW] = true
 	}
 	verifSettle()
-	time.Sleep(5 * verifC34Unit) // a party retrying is asleep between its attempts
+	time.Sleep(10 * verifC34Unit) // parties working inside or between two attempts are asleep
 	verifSettle()
+	o.assertAll("C34-gate-one-holder", "C34-gate-owner-is-the-holder", "C34-gate-refused-only-when-held",
+		"C34-gate-retry-error", "C34-gate-retry-not-early", "C34-gate-error")
 	for i := range done {
 		verifAssert("C34-gate-all-finish", done[i])
 	}
@@ -481,7 +517,9 @@ func VerifC34GatePreempt() {
 
 // verifC34Lock is the bookkeeping shared by the parties of VerifC34MRSWPreempt.
 type verifC34Lock struct {
+	verifC34Obs
 	r            *MultiRSW
+	long         bool // holders stay inside until everybody else is at rest
 	rIn, wIn     int // in the critical section as reader / writer
 	rMay, wMay   int // may hold as reader / writer
 	claims       int // number of times rMay or wMay was raised
@@ -489,22 +527,22 @@ type verifC34Lock struct {
 }
 
 func (l *verifC34Lock) enterRead() {
-	verifAssert("C34-no-reader-with-writer", l.wIn == 0)
+	l.check("C34-no-reader-with-writer", l.wIn == 0)
 	l.rIn++
 	l.readsEntered++
 }
 
 func (l *verifC34Lock) enterWrite() {
-	verifAssert("C34-at-most-one-writer", l.wIn == 0)
-	verifAssert("C34-no-reader-with-writer", l.rIn == 0)
+	l.check("C34-at-most-one-writer", l.wIn == 0)
+	l.check("C34-no-reader-with-writer", l.rIn == 0)
 	l.wIn++
 }
 
 // asWriter: the party is in the critical section as the writer; it works and releases.
 func (l *verifC34Lock) asWriter() {
-	verifC34Work()
-	verifAssert("C34-at-most-one-writer", l.wIn == 1)
-	verifAssert("C34-no-reader-with-writer", l.rIn == 0)
+	verifC34Work(l.long)
+	l.check("C34-at-most-one-writer", l.wIn == 1)
+	l.check("C34-no-reader-with-writer", l.rIn == 0)
 	l.wIn--
 	l.r.EndWrite()
 	l.wMay--
@@ -513,8 +551,8 @@ func (l *verifC34Lock) asWriter() {
 // asReader: the party is in the critical section as a reader; it works, then either releases
 // or tries to upgrade (and releases whichever hold it ends up with).
 func (l *verifC34Lock) asReader(name string, upgrade bool) {
-	verifC34Work()
-	verifAssert("C34-no-reader-with-writer", l.wIn == 0)
+	verifC34Work(l.long)
+	l.check("C34-no-reader-with-writer", l.wIn == 0)
 	if !upgrade {
 		l.rIn--
 		l.r.EndRead()
@@ -528,8 +566,8 @@ func (l *verifC34Lock) asReader(name string, upgrade bool) {
 	if err != nil {
 		l.wMay--
 		verifReach("upgrade-refused")
-		verifAssert("C34-upgrade-refused-only-with-others", w0 > 0 || r0 > 0 || l.claims != c0+1)
-		verifAssert("C34-no-reader-with-writer", l.wIn == 0) // still a reader
+		l.check("C34-upgrade-refused-only-with-others", w0 > 0 || r0 > 0 || l.claims != c0+1)
+		l.check("C34-no-reader-with-writer", l.wIn == 0) // still a reader
 		l.rIn--
 		l.r.EndRead()
 		l.rMay--
@@ -543,10 +581,12 @@ func (l *verifC34Lock) asReader(name string, upgrade bool) {
 }
 
 // VerifC34MRSWPreempt: the multi-reader/single-writer lock. Start state: free, one or two
-// readers, or a writer (set up through the API); each of these holders is a party that either
-// releases at some moment (a reader may try to upgrade first) or holds throughout. The other
-// parties (up to 2-3 in total) each perform one acquire (try/blocking, read/write), work inside,
-// and release (a reader may try to upgrade first).
+// readers, or a writer (set up through the API); each of these holders is a party that works
+// inside and releases (a reader may try to upgrade first). The other parties (2-3 in total) each
+// perform one acquire (try/blocking, read/write), work inside, and release (a reader may try to
+// upgrade first). Work inside is short on every party or long on every party (verifC34Work);
+// with long work the driver also looks at the moment when everything is at rest for the first
+// time: whoever is parked in an acquire is a blocking acquirer excluded by somebody inside.
 func VerifC34MRSWPreempt() {
 	verifPanicsAreViolations()
 	l := &verifC34Lock{r: NewMultiRSW()}
@@ -568,19 +608,15 @@ func VerifC34MRSWPreempt() {
 		verifAssume(r.BeginWrite(names[0]) == nil)
 	}
 	l.rIn, l.rMay, l.wIn, l.wMay = preR, preR, preW, preW
-	stays := 0
-	if preR+preW > 0 && nP > preR+preW {
-		stays = verifChoice("stays", 2) // the first holder holds throughout
-	}
+	l.long = verifChoice("hold", 2) == 1
 	done := make([]bool, nP)
 	blocking := make([]bool, nP)
 	blockingWrite := make([]bool, nP)
+	acquiring := make([]bool, nP) // the party is inside its acquire call
 	for i := 0; i < nP; i++ {
 		i := i
 		name := names[i]
 		switch {
-		case i < stays:
-			done[i] = true
 		case i < preW:
 			go func() {
 				l.asWriter()
@@ -603,13 +639,16 @@ func VerifC34MRSWPreempt() {
 			go func() {
 				w0, r0, c0 := l.wMay, l.rMay, l.claims
 				l.claims++
+				acquiring[i] = true
 				switch op {
 				case 0:
 					l.rMay++
-					if err := r.BeginRead(); err != nil {
+					err := r.BeginRead()
+					acquiring[i] = false
+					if err != nil {
 						l.rMay--
 						verifReach("read-refused")
-						verifAssert("C34-read-refused-only-under-writer", w0 > 0 || l.claims != c0+1)
+						l.check("C34-read-refused-only-under-writer", w0 > 0 || l.claims != c0+1)
 					} else {
 						l.enterRead()
 						l.asReader(name, upgrade)
@@ -617,14 +656,17 @@ func VerifC34MRSWPreempt() {
 				case 1:
 					l.rMay++
 					r.BeginReadBlocking()
+					acquiring[i] = false
 					l.enterRead()
 					l.asReader(name, upgrade)
 				case 2:
 					l.wMay++
-					if err := r.BeginWrite(name); err != nil {
+					err := r.BeginWrite(name)
+					acquiring[i] = false
+					if err != nil {
 						l.wMay--
 						verifReach("write-refused")
-						verifAssert("C34-write-refused-only-when-held", w0 > 0 || r0 > 0 || l.claims != c0+1)
+						l.check("C34-write-refused-only-when-held", w0 > 0 || r0 > 0 || l.claims != c0+1)
 					} else {
 						l.enterWrite()
 						l.asWriter()
@@ -632,6 +674,7 @@ func VerifC34MRSWPreempt() {
 				case 3:
 					l.wMay++
 					r.BeginWriteBlocking(name)
+					acquiring[i] = false
 					l.enterWrite()
 					l.asWriter()
 				}
@@ -640,26 +683,25 @@ func VerifC34MRSWPreempt() {
 		}
 	}
 	verifSettle()
-	if stays == 1 {
-		// a holder never released: whoever is not finished is a blocking acquirer it excludes
+	if l.long {
+		// everybody is at rest: inside (asleep), finished, or parked in a blocking acquire -
+		// and then somebody who excludes it is inside
 		for i := range done {
-			if !done[i] {
+			if acquiring[i] {
 				verifReach("parked-behind-holder")
 				verifAssert("C34-parked-only-blocking-acquirers", blocking[i])
-				if preR > 0 {
-					// readers do not exclude readers, and no writer can get in while one stays
-					verifAssert("C34-parked-reader-has-cause", blockingWrite[i])
+				if blockingWrite[i] {
+					verifAssert("C34-parked-writer-has-cause", l.wIn+l.rIn >= 1)
+				} else {
+					verifAssert("C34-parked-reader-has-cause", l.wIn >= 1)
 				}
 			}
 		}
-		verifAssert("C34-holder-keeps-its-hold", l.rIn+l.wIn >= 1)
-		if preW == 1 {
-			verifAssert("C34-no-reader-with-writer", l.readsEntered == 0 && r.BeginRead() != nil)
-		} else {
-			verifAssert("C34-at-most-one-writer", r.BeginWrite("Z") != nil)
-		}
-		return
+		time.Sleep(10 * verifC34Unit)
+		verifSettle()
 	}
+	l.assertAll("C34-at-most-one-writer", "C34-no-reader-with-writer", "C34-upgrade-refused-only-with-others",
+		"C34-read-refused-only-under-writer", "C34-write-refused-only-when-held")
 	for i := range done {
 		verifAssert("C34-blocking-acquirer-proceeds-once-holders-release", done[i])
 	}
@@ -682,6 +724,7 @@ func VerifC34MRSWPreempt() {
 //     index signalled; the waiters still listed are exactly the open ones.
 func VerifC34ReadyTargetPreempt() {
 	verifPanicsAreViolations()
+	o := &verifC34Obs{}
 	r := NewReadyTarget[uint64]()
 	cur := uint64(2 * verifChoice("cur", 2))
 	r.Signal(cur)
@@ -759,7 +802,7 @@ func VerifC34ReadyTargetPreempt() {
 				chans[k] = ch
 				if verifIsClosed(ch) {
 					verifReach("subscribed-closed")
-					verifAssert("C34-rt-never-woken-before-reached", reached(t))
+					o.check("C34-rt-never-woken-before-reached", reached(t))
 				}
 				if kind == 2 {
 					unsub[k] = true
@@ -784,7 +827,7 @@ func VerifC34ReadyTargetPreempt() {
 		case 4: // Len
 			go func() {
 				n := r.Len()
-				verifAssert("C34-rt-len-in-range", n >= 0 && n <= nSubs)
+				o.check("C34-rt-len-in-range", n >= 0 && n <= nSubs)
 				done[i] = true
 			}()
 		case 5: // Reset
@@ -796,6 +839,7 @@ func VerifC34ReadyTargetPreempt() {
 		}
 	}
 	verifSettle()
+	o.assertAll("C34-rt-never-woken-before-reached", "C34-rt-len-in-range")
 	for i := range done {
 		verifAssert("C34-rt-all-return", done[i])
 	}
